@@ -9,8 +9,12 @@ theorem verdict : (classify Generated.factsC25).Sound (Holds (cfgOf Generated.fa
 #eval IO.println (verdictLine "C25" (classify Generated.factsC25))
 #print axioms verdict
 #print axioms failed_write_drops_entries
-#print axioms repaired_flush_partial
-#print axioms repaired_writer_safe_partial
+#print axioms repaired_flush
+#print axioms holds_of_repaired
+#print axioms holds_repaired
+#print axioms flushWF_ok_spec
+#print axioms addManyWF_ok_spec
+#print axioms syncWF_ok_spec
 #print axioms finish_clean
 #print axioms Hv.BlockStore.flushWF_nofault
 #print axioms Hv.BlockStore.addManyWF_nofault
